@@ -40,6 +40,17 @@ def families(rng, tier):
         F.append("- " * min(n, 500) + "x")
         F.append("[^a]" * n + "\n\n[^a]: x\n")
     F.append("[^-@.c\n]")  # C01-a witness
+    # numeric character references with more digits than a u32 holds, in every position that is unescaped
+    for ref in ["&#" + "9" * k + semi for k in (7, 8, 9, 10, 11, 20, 100) for semi in (";", "")] + ["&#x" + "F" * k + semi for k in (6, 8, 9, 16, 64) for semi in (";", "")] + ["&#4294967296;", "&#xFFFFFFFFF;"]:
+        F += [ref, "[a](" + ref + ")", "[a](/u \"" + ref + "\")", "```" + ref + "\nx\n```", "<http://a/" + ref + ">", "[[" + ref + "]]", "| " + ref + " |\n|---|"]
+    # every prefix of a complete construct as the last bytes of a paragraph, of a heading and of a table cell (scanners
+    # that accept an unterminated form index a few bytes past what they matched)
+    for cst in ["<![CDATA[x]]>", "<![CDATA[]]>", "<!-- c -->", "<!---->", "<?php x ?>", "<!DOCTYPE x>", "<a href=\"u\" b='c'>", "</a >", "[a](/u \"t\")", "![a](<u v> 't')",
+                "`` a ` b ``", "$$x$$", "$`x`$", "&amp;", "&#1234;", "&#xAB;", "<http://x.y/z>", "<a@b.cd>", "[[w|t]]", "***a***", "~~a~~", "||a||", "[^f]", "[a][b]",
+                "http://a.b/c?d=(e)", "www.a.b/c_d_", "a.b+c@d-e.fg", "\\*", "a  \nb", "a\\\nb"]:
+        for k in range(1, len(cst) + 1):
+            p = cst[:k]
+            F += ["a " + p + "\n\nnext", "# " + p, "| " + p + " |\n|---|\n| " + p]
     return F
 
 
